@@ -308,6 +308,8 @@ class Evaluator:
         self._inprogress = set()
         self.payload_facts = {}
         self.payload_flags = {}
+        self.option_facts = {}
+        self._pending = []
         self.bind_fn = None
 
     def _record_payload_facts(self, ctx, bb, x):
@@ -324,6 +326,23 @@ class Evaluator:
                 lst = self.payload_facts.setdefault(x, [])
                 if f not in lst:
                     lst.append(f)
+
+    def _record_option_facts(self, ctx, l, phi):
+        """for a local with several definitions: the guard facts of each defining block, keyed by the option term"""
+        from guards import block_facts
+        body = ctx.body
+        for (bb, si, kind, payload) in body.defs().get(l, []):
+            if body.blocks[bb]["cleanup"] or kind not in ("assign", "call"):
+                continue
+            v = self.rvalue(ctx, payload) if kind == "assign" else self.call(ctx, bb, payload)
+            if v[0] in ("int", "const", "param", "cparam"):
+                continue
+            fs = [f for f in block_facts(self, ctx, bb) if len(f) == 3 and f[0] in ("lt", "le", "eq", "ne")]
+            if fs:
+                lst = self.option_facts.setdefault(v, [])
+                for f in fs:
+                    if f not in lst:
+                        lst.append(f)
 
     # ---- entry points
     def ctx(self, body, self_adt=None, bindings=None, params=None):
@@ -354,7 +373,7 @@ class Evaluator:
                     v = self.rvalue(ctx, payload)
                     opts.append(v)
                     if v[0] == "agg" and v[1].endswith("Option::Some") and v[2]:
-                        self._record_payload_facts(ctx, bb, v[2][0])
+                        self._pending.append(("payload", ctx, bb, v[2][0]))
                 elif kind == "call":
                     opts.append(self.call(ctx, bb, payload))
                 else:
@@ -363,9 +382,19 @@ class Evaluator:
                 r = ("unknown", "undef _%d" % l)
             else:
                 r = mk_phi(opts)
+                if r[0] == "phi":
+                    self._pending.append(("option", ctx, l, r))
         finally:
             self._inprogress.discard(ip)
         ctx.memo[key] = r
+        if not self._inprogress and self._pending:
+            # guard facts are computed only when no evaluation is in flight (otherwise cycle markers leak into them)
+            pend, self._pending = self._pending, []
+            for item in pend:
+                if item[0] == "payload":
+                    self._record_payload_facts(item[1], item[2], item[3])
+                else:
+                    self._record_option_facts(item[1], item[2], item[3])
         return r
 
     def place(self, ctx, p):
@@ -391,6 +420,11 @@ class Evaluator:
         if k == "const":
             if "fn" in o:
                 return ("fnref", norm_std(o["fn"]["full"]))
+            if "promoted" in o:
+                pb = self.facts.bodies.get(o["promoted"])
+                if pb is not None:
+                    return self.local(Ctx(pb, params=(), self_adt=ctx.self_adt, bindings=ctx.bindings,
+                                          depth=ctx.depth + 1, site=ctx.site, stack=ctx.stack), 0)
             if "const_param" in o:
                 return ("cparam", o["const_param"])
             if "int" in o:
